@@ -25,6 +25,8 @@ R04.7 AES round typestate in the CBC bodies (lib/aesrounds.py, on the path each 
       meets a round key out of turn.  Lost track = not judged.
 R04.8 CBC chaining: output block j depends on input block j and on input block j-1 (the IV for j = 0) - an
       over-approximating dependence set, presence demanded only.
+R04.9 the key schedules end after 16*(Nr+1) bytes: no store through exp_key_enc / exp_key_dec of a key-expansion body
+      lies outside [0, 16*(Nr+1)) (the caller's arrays for AES-128 / -192 are shorter than the 240 bytes AES-256 needs).
 R04.4 instance floor: 8 key-expansion bodies, 15 CBC bodies, each with the argument list of aes_keyexp.c / aes_cbc.c.
 """
 import collections
@@ -259,6 +261,15 @@ def run(chk):
             continue
         ENC, DEC = ARGREGS[1], ARGREGS[2]
         nstores += sum(len(v) for v in stores.values())
+        # R04.9 the schedules are 16*(Nr+1) bytes: no store through a schedule argument reaches beyond that
+        for root_, what_ in ((ENC, "exp_key_enc"), (DEC, "exp_key_dec")):
+            over_ = [(sq, o_, z_) for (sq, o_, z_, t_) in stores.get(root_, []) if o_ < 0 or o_ + z_ > 16 * (nr + 1)]
+            if root_ == DEC and not has_dec:
+                continue
+            chk.obligation("R04.9", not over_, key=(name, what_), sample={"function": name, "schedule": what_, "bytes": 16 * (nr + 1), "stores": len(stores.get(root_, []))})
+            if over_:
+                sq, o_, z_ = over_[0]
+                chk.finding(Finding("R04.9", o.name, name, "schedule-extent:" + what_, "a store writes bytes %d..%d of %s; an AES-%d schedule has %d bytes (%d round keys) - the caller's array ends there" % (o_, o_ + z_ - 1, what_, bits, 16 * (nr + 1), nr + 1), loc=o.src))
         other = [r for r in stores if stores[r] and r not in (ENC, DEC, ("stack",))]
         if other or (not has_dec and stores.get(DEC)):
             chk.finding(Finding("R04.1", o.name, name, "stray-store", "the key expansion stores through %s, which is neither of its schedule arguments" % (other or [DEC]), loc=o.line_of(f.sec, f.entry)))
